@@ -799,13 +799,13 @@ fn run_set_twice(c: &mut Ctx) {
 /// by the same formulas, and `from_local_datetime` is the trait's PROVIDED method on both sides (a
 /// candidate whose UTC reading leaves the representable range turns the whole result into `None`).
 #[derive(Clone, Copy, Debug, PartialEq, Eq)]
-struct StepZone {
-    t: i64,
-    o1: i32,
-    o2: i32,
+pub struct StepZone {
+    pub t: i64,
+    pub o1: i32,
+    pub o2: i32,
 }
 #[derive(Clone, Copy, Debug, PartialEq, Eq)]
-struct StepOffset {
+pub struct StepOffset {
     zone: StepZone,
     off: FixedOffset,
 }
@@ -875,7 +875,7 @@ fn cands(m: &LocalResult<DateTime<StepZone>>) -> Vec<DateTime<StepZone>> {
 const MIN_TS: i64 = -8334601228800; // NaiveDateTime::MIN as a timestamp
 const MAX_TS: i64 = 8210266876799; // NaiveDateTime::MAX
 
-fn gen_step_zone(c: &mut Ctx) -> (StepZone, &'static str) {
+pub fn gen_step_zone(c: &mut Ctx) -> (StepZone, &'static str) {
     let (o1, o2, kind) = match c.rng.below(10) {
         0 => (7200, 3600, "fold"),
         1 => (3600, 7200, "gap"),
